@@ -794,4 +794,147 @@ theorem reach_blocks (n b : UNode α) (h : Reach n b) : b ∈ n.blocks := by
   | refl => exact n.mem_blocks_self
   | step _ hl ih => exact blocks_closed n _ _ ih hl
 
+/-! ### depth of the balanced layout -/
+
+theorem heightL_const (ks : List (FNode α)) (d : Nat) (h : ∀ k ∈ ks, k.height = d) (hne : ks ≠ []) : heightL ks = d := by
+  induction ks with
+  | nil => exact absurd rfl hne
+  | cons k ks ih =>
+    simp only [heightL]
+    have hk := h k List.mem_cons_self
+    by_cases hks : ks = []
+    · subst hks; simp [heightL, hk]
+    · rw [ih (fun x hx => h x (List.mem_cons_of_mem _ hx)) hks, hk]; simp
+
+/-- a builder step that takes `min c len` chunks into a node of height `d` -/
+def Takes (mk : List α → Built α × List α) (c d : Nat) : Prop :=
+  ∀ cs, cs ≠ [] → (mk cs).2.length = cs.length - c ∧ (mk cs).1.node.height = d ∧ (mk cs).1.node.nleaves = min c cs.length
+
+theorem fillKids_takes (mk : List α → Built α × List α) (c d : Nat) (hc : 0 < c) (hmk : Takes mk c d) :
+    ∀ (room : Nat) (cs : List α),
+      (fillKids mk room cs).2.length = cs.length - room * c ∧
+      (∀ k ∈ (fillKids mk room cs).1, k.node.height = d) ∧
+      nleavesL ((fillKids mk room cs).1.map (·.node)) = min (room * c) cs.length := by
+  intro room
+  induction room with
+  | zero => intro cs; simp [fillKids, nleavesL]
+  | succ r ih =>
+    intro cs
+    unfold fillKids
+    by_cases he : cs.isEmpty = true
+    · have : cs = [] := List.isEmpty_iff.mp he
+      simp [this, nleavesL]
+    · have hne : cs ≠ [] := fun h0 => he (by simp [h0])
+      simp only [he, Bool.false_eq_true, ↓reduceIte]
+      obtain ⟨h1, h2, h3⟩ := hmk cs hne
+      obtain ⟨i1, i2, i3⟩ := ih (mk cs).2
+      have hm : (r + 1) * c = r * c + c := Nat.succ_mul r c
+      refine ⟨by rw [i1, h1, hm]; omega, ?_, ?_⟩
+      · intro k hk
+        rcases List.mem_cons.mp hk with rfl | hk
+        · exact h2
+        · exact i2 k hk
+      · simp only [List.map_cons, nleavesL, i3, h3, h1, hm]; omega
+
+theorem sub_takes (cd : Codec α) (k : LeafKind) (W : Nat) (hW : 0 < W) : ∀ d, Takes (sub cd k W d) (W ^ d) d := by
+  intro d
+  induction d with
+  | zero =>
+    intro cs hne
+    cases cs with
+    | nil => exact absurd rfl hne
+    | cons c cs => simp [sub, nextLeaf, FNode.height, FNode.nleaves]
+  | succ d ih =>
+    intro cs hne
+    have hp : 0 < W ^ d := Nat.pow_pos hW
+    obtain ⟨f1, f2, f3⟩ := fillKids_takes _ (W ^ d) d hp ih W cs
+    have hpow : W ^ (d + 1) = W * W ^ d := by rw [Nat.pow_succ, Nat.mul_comm]
+    have hpos : 0 < cs.length := List.length_pos_iff.mpr hne
+    have hne' : (fillKids (sub cd k W d) W cs).1 ≠ [] := by
+      intro h0
+      rw [h0] at f3
+      simp only [List.map_nil, nleavesL] at f3
+      have : 0 < W * W ^ d := Nat.mul_pos hW hp
+      omega
+    refine ⟨?_, ?_, ?_⟩
+    · show (fillKids (sub cd k W d) W cs).2.length = _
+      rw [f1, hpow]
+    · show (mkInner _).node.height = d + 1
+      simp only [mkInner, FNode.height]
+      rw [heightL_const _ d]
+      · intro x hx
+        obtain ⟨b, hb, rfl⟩ := List.mem_map.mp hx
+        exact f2 b hb
+      · simpa using hne'
+    · show (mkInner _).node.nleaves = _
+      simp only [mkInner, FNode.nleaves]
+      rw [f3, hpow]
+
+theorem grow_depth (cd : Codec α) (k : LeafKind) (W : Nat) (hW : 2 ≤ W) :
+    ∀ (fuel depth : Nat) (root : Built α) (cs : List α), cs.length ≤ fuel →
+      root.node.height = depth → root.node.nleaves ≤ W ^ depth → (cs ≠ [] → root.node.nleaves = W ^ depth) →
+      let t := (grow cd k W fuel depth root cs).node
+      depth ≤ t.height ∧ root.node.nleaves + cs.length ≤ W ^ t.height ∧
+      (depth < t.height → W ^ (t.height - 1) < root.node.nleaves + cs.length) := by
+  intro fuel
+  induction fuel with
+  | zero =>
+    intro depth root cs hl hh hle _
+    have : cs = [] := List.length_eq_zero_iff.mp (by omega)
+    subst this
+    simp only [grow, List.length_nil, Nat.add_zero]
+    exact ⟨by omega, by rw [hh]; exact hle, by omega⟩
+  | succ f ih =>
+    intro depth root cs hl hh hle hfull
+    unfold grow
+    by_cases he : cs.isEmpty = true
+    · have : cs = [] := List.isEmpty_iff.mp he
+      subst this
+      simp only [List.isEmpty_nil, if_true, List.length_nil, Nat.add_zero]
+      exact ⟨by omega, by rw [hh]; exact hle, by omega⟩
+    · have hne : cs ≠ [] := fun h0 => he (by simp [h0])
+      simp only [he, Bool.false_eq_true, ↓reduceIte]
+      have hp : 0 < W ^ depth := Nat.pow_pos (by omega)
+      obtain ⟨f1, f2, f3⟩ := fillKids_takes _ (W ^ depth) depth hp (sub_takes cd k W (by omega) depth) (W - 1) cs
+      have hpow : W ^ (depth + 1) = (W - 1) * W ^ depth + W ^ depth := by
+        have h1 : W ^ (depth + 1) = W ^ depth * W := Nat.pow_succ W depth
+        have h2 : W ^ depth * W = W ^ depth * (W - 1) + W ^ depth := by
+          have : W = (W - 1) + 1 := by omega
+          calc W ^ depth * W = W ^ depth * ((W - 1) + 1) := by rw [← this]
+            _ = W ^ depth * (W - 1) + W ^ depth := Nat.mul_succ _ _
+        rw [h1, h2, Nat.mul_comm]
+      have hpos : 0 < cs.length := List.length_pos_iff.mpr hne
+      have hroot := hfull hne
+      -- the new root
+      have hnl : (mkInner (root :: (fillKids (sub cd k W depth) (W - 1) cs).1)).node.nleaves =
+          W ^ depth + min ((W - 1) * W ^ depth) cs.length := by
+        simp only [mkInner, FNode.nleaves, List.map_cons, nleavesL, f3, hroot]
+      have hht : (mkInner (root :: (fillKids (sub cd k W depth) (W - 1) cs).1)).node.height = depth + 1 := by
+        simp only [mkInner, FNode.height]
+        rw [heightL_const _ depth]
+        · intro x hx
+          obtain ⟨b, hb, rfl⟩ := List.mem_map.mp hx
+          rcases List.mem_cons.mp hb with rfl | hb
+          · exact hh
+          · exact f2 b hb
+        · simp
+      have := ih (depth + 1) (mkInner (root :: (fillKids (sub cd k W depth) (W - 1) cs).1))
+        (fillKids (sub cd k W depth) (W - 1) cs).2 (by rw [f1]; have : 0 < (W - 1) * W ^ depth := Nat.mul_pos (by omega) hp; omega)
+        hht (by rw [hnl, hpow]; omega)
+        (by intro hr
+            have : 0 < (fillKids (sub cd k W depth) (W - 1) cs).2.length := List.length_pos_iff.mpr hr
+            rw [hnl, hpow]; omega)
+      simp only at this ⊢
+      obtain ⟨g1, g2, g3⟩ := this
+      rw [hnl, f1] at g2 g3
+      have hsum : W ^ depth + min ((W - 1) * W ^ depth) cs.length + (cs.length - (W - 1) * W ^ depth) = W ^ depth + cs.length := by omega
+      rw [hsum] at g2 g3
+      rw [hroot]
+      refine ⟨by omega, g2, ?_⟩
+      intro _
+      by_cases hd : depth + 1 < (grow cd k W f (depth + 1) (mkInner (root :: (fillKids (sub cd k W depth) (W - 1) cs).1)) (fillKids (sub cd k W depth) (W - 1) cs).2).node.height
+      · exact g3 hd
+      · have : (grow cd k W f (depth + 1) (mkInner (root :: (fillKids (sub cd k W depth) (W - 1) cs).1)) (fillKids (sub cd k W depth) (W - 1) cs).2).node.height = depth + 1 := by omega
+        rw [this]; simp only [Nat.add_sub_cancel]; omega
+
 end CV.C13.Imp
